@@ -15,7 +15,22 @@ import (
 // interpBool runs fn under the assignment given by atom and returns the return instruction reached together with an
 // evaluator for boolean values at that point. ok is false when a branch condition could not be decided.
 func interpBool(fn *ssa.Function, atom func(ssa.Value) (val, known bool)) (ret *ssa.Return, evalAt func(ssa.Value) (bool, bool), ok bool) {
+	ret, evalAt, _, ok = interpBoolP(fn, atom)
+	return
+}
+
+// interpBoolP additionally hands back a resolver for (non-boolean) phis of the block the run ended in: the edge value that
+// corresponds to the branch taken.
+func interpBoolP(fn *ssa.Function, atom func(ssa.Value) (val, known bool)) (ret *ssa.Return, evalAt func(ssa.Value) (bool, bool), edgeOf func(*ssa.Phi) ssa.Value, ok bool) {
 	var prev *ssa.BasicBlock
+	edgeOf = func(ph *ssa.Phi) ssa.Value {
+		for i, p := range ph.Block().Preds {
+			if p == prev {
+				return ph.Edges[i]
+			}
+		}
+		return nil
+	}
 	phiVal := map[*ssa.Phi]bool{} // boolean phis, resolved on entry to their block against the edge taken
 	var eval func(v ssa.Value, d int) (bool, bool)
 	enter := func(b *ssa.BasicBlock) {
@@ -73,7 +88,7 @@ func interpBool(fn *ssa.Function, atom func(ssa.Value) (val, known bool)) (ret *
 	}
 	evalAt = func(v ssa.Value) (bool, bool) { return eval(v, 0) }
 	if len(fn.Blocks) == 0 {
-		return nil, evalAt, false
+		return nil, evalAt, edgeOf, false
 	}
 	b := fn.Blocks[0]
 	for steps := 0; steps < 200; steps++ {
@@ -81,7 +96,7 @@ func interpBool(fn *ssa.Function, atom func(ssa.Value) (val, known bool)) (ret *
 		case *ssa.If:
 			c, ok := eval(t.Cond, 0)
 			if !ok {
-				return nil, evalAt, false
+				return nil, evalAt, edgeOf, false
 			}
 			prev = b
 			if c {
@@ -94,12 +109,12 @@ func interpBool(fn *ssa.Function, atom func(ssa.Value) (val, known bool)) (ret *
 			prev, b = b, b.Succs[0]
 			enter(b)
 		case *ssa.Return:
-			return t, evalAt, true
+			return t, evalAt, edgeOf, true
 		default:
-			return nil, evalAt, false
+			return nil, evalAt, edgeOf, false
 		}
 	}
-	return nil, evalAt, false
+	return nil, evalAt, edgeOf, false
 }
 
 // decideByNilness evaluates fn for one assignment of nil/non-nil to the values recognised by isNil. It reports whether
